@@ -109,6 +109,8 @@ class ClassWorld:
             else:
                 decl.append([p for p in used if rng.random() < 0.2])
         cfg = {'shape': shape, 'used': used, 'decl': decl, 'avoid': sorted(avoid)}
+        if prop == 'C14' and rng.random() < 0.3:
+            cfg['name_default'] = True          # the root class declares its own default for `name` (it stays a constant)
         n_ops = min(60 if big else 36, 3 + int(rng.expovariate(1 / (16.0 if big else 10.0))))
         nc = len(bases)
         ops = []
@@ -119,7 +121,7 @@ class ClassWorld:
                     ('ecblock', 1.2),
                     ('watchnew', 1), ('cparam', 2.5), ('poison', 1.5)],
             'C14': [('new', 3), ('newk', 2), ('kset', 5), ('kupdate', 2), ('cset', 3), ('rset', 2), ('ec_open', 3), ('ec_close', 2.5), ('ec_close_first', 1), ('ec_raise', 1.5),
-                    ('touch', 1.5), ('iset', 2), ('nameset', 1), ('kref', 1.5), ('srcset', 1.5), ('newkref', 1), ('srcset_fail', 1), ('srcset_rebind', 1)],
+                    ('touch', 1.5), ('iset', 2), ('nameset', 1), ('kref', 1.5), ('srcset', 1.5), ('newkref', 1), ('srcset_fail', 1), ('srcset_rebind', 1), ('cname', 1)],
         }[prop]
         depth = 0
         for _ in range(n_ops):
@@ -285,6 +287,8 @@ class _Run:
                     ns[p] = param.Parameter(default=d, **kw)
                     attrs = {'doc': None}
                 own[p] = PM(p, d, attrs)
+            if ci == 0 and cfg.get('name_default'):
+                ns['name'] = param.String(default='custom')
             self.classes.append(type(f"K{ci}", tuple(self.classes[b] for b in bs) or (param.Parameterized,), ns))
             self.own.append(own)
             self.extra.append({})
@@ -411,7 +415,7 @@ class _Run:
             vals[p] = real
         vals.update(given)
         self.insts.append(o)
-        self.im.append({'c': ci, 'values': vals, 'copies': {}})
+        self.im.append({'c': ci, 'values': vals, 'copies': {}, 'name': o.name})
 
     def ensure_copy(self, i, p):
         m = self.im[i]
@@ -540,6 +544,8 @@ class _Run:
                         self.viol('C14.flags_restored', f"{where}: class Parameter {p} governing I{i} has constant={sp.constant!r}")
                     if not depth_by_inst.get(i) and p in m['copies'] and o.param[p].constant is not True:
                         self.viol('C14.flags_restored', f"{where}: instance Parameter I{i}.{p} has constant={o.param[p].constant!r} outside edit_constant")
+            if i not in self.fuzzy and o.name != m['name']:
+                self.viol('C14.name_constant', f"{where}: I{i}.name is {o.name!r}, it was {m['name']!r} when last assigned (construction or edit_constant)")
             if type(o).param['name'].constant is not True:
                 self.viol('C14.flags_restored', f"{where}: the name Parameter of I{i}'s class has constant={type(o).param['name'].constant!r}")
             if not depth_by_inst.get(i) and o.param['name'].constant is not True:
@@ -844,6 +850,11 @@ class _Run:
             if self.ref_src is None:
                 return
             self.set_src(self.new_list(), fail=(k == 'srcset_fail'))
+        elif k == 'cname':
+            # class-level assignment of `name`: allowed on a class, existing instances keep theirs
+            if self.cfg.get('name_default'):
+                self.counter += 1
+                setattr(self.classes[ci], 'name', f"cls{self.counter}")
         elif k == 'srcset_rebind':
             # a watcher of the linked constant, called because the source changed, tries to rebind the object's name (a
             # constant): an ordinary attempt outside edit_constant
@@ -922,6 +933,7 @@ class _Run:
                 return
             if not inside:
                 self.viol('C14.name_constant', f"I{i}.name was assigned after construction, outside edit_constant")
+            self.im[i]['name'] = self.insts[i].name
         elif k == 'ecblock' and has_inst:
             # a complete edit_constant block on an instance (entered internally by reference syncing too): no effect on any namespace
             with param.parameterized.edit_constant(self.insts[i]):
